@@ -40,12 +40,30 @@ MCWorld ==
     omim    |-> <<R(1, <<4, 6>>), R(2, <<2>>), R(3, <<3>>), R(4, <<>>)>>,
     orpha   |-> <<R(1, <<3>>), R(2, <<5>>)>> ]
 
-MCExtend == {3, 6}
+MCExtend == IF Variant = 5 THEN {3, 239} ELSE {3, 6}
+
+(* Variant 5: beyond the inline capacity (30) of the crate's id groups.  A chain 200 <- 201 <- ... <- 239 below HP:118 (the    *)
+(* deepest term has 41 ancestors), a modifier root 2 with child 3; 210 obsolete and replaced by 211, 220 obsolete.  Objects are *)
+(* created with a few large / deep member sets instead of every subset.                                                        *)
+Chain == 200..239
+BigIds == <<1, 2, 3, 118>> \o [i \in 1..40 |-> 199 + i]
+BigWorld ==
+  [ version |-> <<2024, 1, 2>>,
+    terms   |-> [i \in 1..Len(BigIds) |-> T(BigIds[i], BigIds[i] \in {210, 220}, IF BigIds[i] = 210 THEN 211 ELSE 0)],
+    parents |-> [i \in 1..Len(BigIds) |-> P(BigIds[i], CASE BigIds[i] = 1 -> <<>> [] BigIds[i] \in {2, 118} -> <<1>> [] BigIds[i] = 3 -> <<2>>
+                                                          [] BigIds[i] = 200 -> <<118>> [] OTHER -> <<BigIds[i] - 1>>)],
+    gene    |-> <<R(1, <<239>>), R(2, <<200>>), R(3, <<3>>), R(4, <<>>)>>,
+    omim    |-> <<R(1, <<220>>), R(2, <<2>>)>>,
+    orpha   |-> <<R(1, <<211>>)>> ]
+BigInit == { {1, 2, 3, 118} \cup Chain, Chain, {238, 239}, {1, 118, 239}, {1} \cup (200..230), {3, 239}, {210, 211, 220, 239}, {} }
+
+TheWorld == IF Variant = 5 THEN BigWorld ELSE MCWorld
+MCInit == IF Variant = 5 THEN BigInit ELSE SUBSET {1, 2, 3, 4, 5, 6, 118}
 
 (* one line per complete history; the world itself once (from the state "empty set, nothing done") *)
 Emit == (Len(hist) = MaxOps) =>
            PrintT(<<"REPLAY", ToJson([ variant |-> Variant, start |-> Sorted(start), initial |-> Obs(start), steps |-> hist ])>>)
 EmitWorld == (hist = <<>> /\ members = {}) =>
-           PrintT(<<"REPLAY", ToJson([ world |-> Variant, bytes |-> Encode(MCWorld, 3),
-                                       modifier |-> Sorted(ModRoots(MCWorld)), categories |-> Sorted(CatRoots(MCWorld)) ])>>)
+           PrintT(<<"REPLAY", ToJson([ world |-> Variant, bytes |-> Encode(TheWorld, 3),
+                                       modifier |-> Sorted(ModRoots(TheWorld)), categories |-> Sorted(CatRoots(TheWorld)) ])>>)
 =============================================================================
